@@ -1,6 +1,7 @@
 package main
 
 import (
+	"go/constant"
 	"fmt"
 	"go/token"
 	"go/types"
@@ -1798,6 +1799,14 @@ func (a *Activation) mapOps(instr ssa.Instruction, st *State) *State {
 			}
 			if lk.CommaOk {
 				has := t.declareFun("$maphas", []string{"Int", "Int"}, "Bool")
+				if keys, ok := a.globalMapLiteralKeys(lk.X); ok && k.K == KInt {
+					// the key set of a package-level map literal is read from the package initialiser (this run's source)
+					var eqs []string
+					for _, c := range keys {
+						eqs = append(eqs, sEq(k.S, c))
+					}
+					t.assume(st.pc, sEq(sApp(has, m.S, k.S), sOr(eqs...)))
+				}
 				a.env[lk] = Val{K: KTuple, T: lk.Type(), Fields: []Val{v, boolVal(sApp(has, m.S, k.S))}}
 			} else {
 				a.env[lk] = v
@@ -1810,4 +1819,84 @@ func (a *Activation) mapOps(instr ssa.Instruction, st *State) *State {
 		a.env[v] = a.t.freshValue(st.pc, "map", v.Type())
 	}
 	return st
+}
+
+// globalMapLiteralKeys: x is a read of an unexported package-level map variable that the package initialiser sets to a
+// map literal with constant integer keys, and that no function of the package stores to or updates. Returns the keys.
+func (a *Activation) globalMapLiteralKeys(x ssa.Value) ([]string, bool) {
+	u, ok := x.(*ssa.UnOp)
+	if !ok || u.Op != token.MUL {
+		return nil, false
+	}
+	g, ok := u.X.(*ssa.Global)
+	if !ok || g.Object() == nil || g.Object().Exported() {
+		return nil, false
+	}
+	initFn := g.Pkg.Func("init")
+	if initFn == nil {
+		return nil, false
+	}
+	var mk *ssa.MakeMap
+	stores := 0
+	var fns []*ssa.Function
+	for _, mem := range g.Pkg.Members {
+		if f, ok := mem.(*ssa.Function); ok {
+			fns = append(fns, f)
+		}
+	}
+	for i := 0; i < len(fns); i++ {
+		fns = append(fns, fns[i].AnonFuncs...)
+	}
+	for _, f := range fns {
+		for _, b := range f.Blocks {
+			for _, in := range b.Instrs {
+				switch in := in.(type) {
+				case *ssa.Store:
+					if in.Addr == g {
+						stores++
+						if m, ok := in.Val.(*ssa.MakeMap); ok && f == initFn {
+							mk = m
+						}
+					}
+				case *ssa.MapUpdate:
+					// an update of a map read from the variable anywhere else disqualifies the literal reading
+					if uu, ok := in.Map.(*ssa.UnOp); ok && uu.X == g {
+						return nil, false
+					}
+				}
+			}
+		}
+	}
+	if mk == nil || stores != 1 {
+		return nil, false
+	}
+	var keys []string
+	for _, b := range initFn.Blocks {
+		for _, in := range b.Instrs {
+			if mu, ok := in.(*ssa.MapUpdate); ok && mu.Map == mk {
+				c, ok := mu.Key.(*ssa.Const)
+				if !ok || c.Value == nil || c.Value.Kind() != constant.Int {
+					return nil, false
+				}
+				keys = append(keys, sIntStr(c.Value.ExactString()))
+			}
+		}
+	}
+	// every use of the fresh map in init must be one of those updates or the store
+	for _, r := range *mk.Referrers() {
+		switch r.(type) {
+		case *ssa.MapUpdate, *ssa.Store, *ssa.DebugRef:
+		default:
+			return nil, false
+		}
+	}
+	a.t.assumed["package-level map literal "+g.Pkg.Pkg.Path()+"."+g.Name()+": key set read from the package initialiser; no other store or update in the package (checked syntactically)"] = true
+	return keys, true
+}
+
+func sIntStr(s string) string {
+	if strings.HasPrefix(s, "-") {
+		return "(- " + s[1:] + ")"
+	}
+	return s
 }
